@@ -33,6 +33,7 @@ type LoopSpec struct {
 	Invariants []*Clause
 	Decreases  *Clause
 	Unroll     int // exact unrolling of constant-trip loops
+	Bounded    bool // bounded instance search: iterations beyond Unroll are cut off, not checked
 	Line       int
 }
 
@@ -77,6 +78,7 @@ type SpecFunc struct {
 	Body   SpecExpr
 	Src    string
 	Uninterp bool
+	Opaque   bool
 	Line   int
 }
 
@@ -137,7 +139,7 @@ var clauseKW = map[string]bool{
 	"func": true, "spec": true, "lemma": true, "axiom": true, "trusted": true, "mode": true, "props": true,
 	"requires": true, "ensures": true, "modifies": true, "loop": true, "inline": true,
 	"pure": true, "nullable": true, "may_alias": true, "panics": true, "wraps": true,
-	"decoder": true, "abstract": true, "ghost": true, "terminates": true, "uninterp": true, "at": true,
+	"decoder": true, "abstract": true, "ghost": true, "terminates": true, "uninterp": true, "at": true, "opaque": true,
 }
 
 var reTag = regexp.MustCompile(`^(\w+)\[([A-Z0-9, ]+)\]`)
@@ -260,6 +262,19 @@ func (cs *Contracts) ParseContractFile(path, pkgPath string) error {
 			}
 			sf.Pkg = pkgPath
 			sf.Line = ll.line
+			cs.Specs[pkgPath+"."+sf.Name] = sf
+			cur = nil
+		case "opaque":
+			if !strings.HasPrefix(rest, "spec func ") {
+				return fail("expected 'opaque spec func'")
+			}
+			sf, err := parseSpecFunc(strings.TrimSpace(rest[10:]))
+			if err != nil {
+				return fail("%v", err)
+			}
+			sf.Pkg = pkgPath
+			sf.Line = ll.line
+			sf.Opaque = true
 			cs.Specs[pkgPath+"."+sf.Name] = sf
 			cur = nil
 		case "uninterp":
